@@ -29,6 +29,8 @@ def register(reg):
     udp_common.reg_serialize_raw(reg, PID)
     udp_common.reg_parse_header(reg, PID)
     reg.fns["hippolyzer.lib.base.message.udpdeserializer:UDPMessageDeserializer._parse_message_header@plain"].also.append("C01")
+    from contracts import c02b_contracts
+    c02b_contracts.register_p2(reg, PID)
 
 
 from contracts import c01_native
